@@ -162,12 +162,10 @@ pub fn filter_file_pattern<'a>(
   let file_content = read_file(path)?;
   let grep = lang.ast_grep(&file_content);
   let do_match = |ast_grep: AstGrep, matcher: &'a Pattern<SgLang>| {
-    let fixed = matcher.fixed_string();
-    // under `signature` strictness the text of tokens is not compared, so a file
-    // can match without containing the pattern's literal: no shortcut there
-    let text_matters = !matches!(matcher.strictness, MatchStrictness::Signature);
-    if text_matters && !fixed.is_empty() && !file_content.contains(&*fixed) {
-      return None;
+    if let Some(fixed) = required_literal(matcher) {
+      if !fixed.is_empty() && !file_content.contains(&*fixed) {
+        return None;
+      }
     }
     Some(MatchUnit {
       grep: ast_grep,
@@ -187,6 +185,36 @@ pub fn filter_file_pattern<'a>(
   });
   ret.extend(sub_units);
   Ok(ret)
+}
+
+/// A literal that every file matched by the pattern must contain, if there is one.
+/// Which pattern tokens are compared by text depends on the strictness:
+/// `signature` compares no text at all; `ast` and `relaxed` may skip unnamed
+/// tokens (`let a = 1` matches `const a = 1`), so only named tokens count there.
+fn required_literal(matcher: &Pattern<SgLang>) -> Option<std::borrow::Cow<str>> {
+  use ast_grep_core::matcher::PatternNode;
+  fn longest_named(node: &PatternNode) -> &str {
+    match node {
+      PatternNode::Terminal { text, is_named, .. } if *is_named => text,
+      PatternNode::Terminal { .. } | PatternNode::MetaVar { .. } => "",
+      PatternNode::Internal { children, .. } => {
+        children.iter().map(longest_named).fold("", |longest, curr| {
+          if longest.len() >= curr.len() {
+            longest
+          } else {
+            curr
+          }
+        })
+      }
+    }
+  }
+  match matcher.strictness {
+    MatchStrictness::Signature => None,
+    MatchStrictness::Ast | MatchStrictness::Relaxed => {
+      Some(std::borrow::Cow::Borrowed(longest_named(&matcher.node)))
+    }
+    MatchStrictness::Cst | MatchStrictness::Smart => Some(matcher.fixed_string()),
+  }
 }
 
 const MAX_FILE_SIZE: usize = 3_000_000;
